@@ -215,7 +215,7 @@ func New(opts Options) (*Vaxis, error) {
 	vx.chClipboard = make(chan string)
 	vx.chSigWinSz = make(chan os.Signal, 1)
 	vx.chSigKill = make(chan os.Signal, 1)
-	vx.chCursorPos = make(chan [2]int)
+	vx.chCursorPos = make(chan [2]int, 1)
 	vx.chQuit = make(chan bool)
 	vx.chSizeDone = make(chan bool, 1)
 	vx.charCache = make(map[string]int, 256)
@@ -824,9 +824,14 @@ func (vx *Vaxis) handleSequence(seq ansi.Sequence) {
 					log.Error("not enough DSRCPR params")
 					return
 				}
-				vx.chCursorPos <- [2]int{
+				// never block the input loop here: the requester may
+				// have timed out just now and be gone
+				select {
+				case vx.chCursorPos <- [2]int{
 					seq.Parameters[0][0],
 					seq.Parameters[1][0],
+				}:
+				default:
 				}
 				return
 			}
@@ -1521,6 +1526,11 @@ func (vx *Vaxis) showCursor() string {
 // -1,-1 if the query times out or fails
 func (vx *Vaxis) CursorPosition() (row int, col int) {
 	// DSRCPR - reports cursor position
+	select {
+	case <-vx.chCursorPos:
+		// a report that came after its request had timed out
+	default:
+	}
 	atomicStore(&vx.reqCursorPos, true)
 	_, _ = io.WriteString(vx.console, dsrcpr)
 	timeout := time.NewTimer(50 * time.Millisecond)
